@@ -285,10 +285,19 @@ func (f *fakeTransport) New(next pipeline.Policy, po *pipeline.PolicyOptions) pi
 	})
 }
 
+// leaseSDKPrev >= 0: the manager of the next SDK-level cases has already created that many partitions (an earlier
+// provisioning with a smaller count, all uploads fine, not recorded); names and behaviour of the recorded call must
+// be those of a first call
+var leaseSDKPrev = -1
+
 func leaseCaseSDK(log *leaseLog, gen int, kind string, n int, index int, outcomes []string) {
 	log.f("case %d sdk %s %d %d %s", gen, kind, n, index, strings.Join(outcomes, " "))
 	nreq := 0
+	warming := false
 	ft := &fakeTransport{log: log, outcome: func(req *http.Request) string {
+		if warming {
+			return "ok"
+		}
 		i := nreq
 		nreq++
 		if len(outcomes) == 0 {
@@ -309,8 +318,17 @@ func leaseCaseSDK(log *leaseLog, gen int, kind string, n int, index int, outcome
 	ctx, cancel := context.WithTimeout(context.Background(), 5*time.Second)
 	defer cancel()
 	key := "a2V5"
+	warm := func(call func()) {
+		if leaseSDKPrev >= 0 {
+			warming, log.mute = true, true
+			call()
+			warming, log.mute = false, false
+			log.f("note created-before %d", leaseSDKPrev)
+		}
+	}
 	if gen == 1 {
 		m := b1.VerifNewBlobLeaseManager("acct", "cont", &key, cont, nil, leaseListener(log))
+		warm(func() { m.CreatePartitions(ctx, leaseSDKPrev) })
 		switch kind {
 		case "create":
 			err := m.CreatePartitions(ctx, n)
@@ -324,6 +342,7 @@ func leaseCaseSDK(log *leaseLog, gen int, kind string, n int, index int, outcome
 		ev.AddListener(leaseListener(log))
 		m := b2.VerifNewBlobLeaseManager("acct", "cont", key, cont, nil)
 		m.RaiseEventsTo(ev)
+		warm(func() { m.CreatePartitions(ctx, leaseSDKPrev) })
 		switch kind {
 		case "create":
 			m.CreatePartitions(ctx, n)
@@ -431,6 +450,16 @@ func RunLease(t *testing.T, seed int64, thorough bool, out io.Writer) {
 			}
 			leaseCaseSDK(log, gen, "create", n, 0, outs)
 		}
+	}
+	// through the SDK client on a manager that has provisioned a smaller count before (a growing SetSharedCapacity)
+	for gen := 1; gen <= 2; gen++ {
+		leaseSDKPrev = 3
+		leaseCaseSDK(log, gen, "create", 6, 0, []string{"ok"})
+		leaseCaseSDK(log, gen, "create", 5, 0, []string{"BlobAlreadyExists", "BlobAlreadyExists", "BlobAlreadyExists", "ok", "ok"})
+		for _, idx := range []int{0, 2, 3, 4, 5} {
+			leaseCaseSDK(log, gen, "lease", 0, idx, []string{"ok"})
+		}
+		leaseSDKPrev = -1
 	}
 	// the v1 ProvisionedResource: every sequence of up to three calls, for a few capacities
 	provOps := []string{"provision", "start", "giveme", "stop"}
